@@ -1,0 +1,43 @@
+// Copyright 2026 Juan Pablo Tosso and the OWASP Coraza contributors
+// SPDX-License-Identifier: Apache-2.0
+
+//go:build verif && !tinygo && !coraza.no_memoize
+
+package memoize
+
+// Verification hooks (build tag "verif").
+
+// VerifYield, when set, is called at the points of Do and Release where shared state has just
+// been read or is about to be written, so a harness can widen the interleavings (runtime.Gosched)
+// or gate goroutines to replay a chosen schedule.
+var VerifYield func(point string)
+
+func verifYield(point string) {
+	if VerifYield != nil {
+		VerifYield(point)
+	}
+}
+
+// VerifEntry is the observable state of one cache entry.
+type VerifEntry struct {
+	Key     string
+	Owners  []uint64
+	Deleted bool
+}
+
+// VerifSnapshot returns the entries reachable from the cache (taken entry by entry under its mutex).
+func VerifSnapshot() []VerifEntry {
+	var out []VerifEntry
+	cache.Range(func(key, value any) bool {
+		e := value.(*entry)
+		e.mu.Lock()
+		ve := VerifEntry{Key: key.(string), Deleted: e.deleted}
+		for o := range e.owners {
+			ve.Owners = append(ve.Owners, o)
+		}
+		e.mu.Unlock()
+		out = append(out, ve)
+		return true
+	})
+	return out
+}
